@@ -416,8 +416,9 @@ func refLineOK(line string) bool {
 }
 
 type damage struct {
-	name string
-	img  []byte
+	name  string
+	img   []byte
+	rfail int // the reader fails at this byte offset of the (damaged) image (<0: never)
 }
 
 func (h *serialHarness) damages(c *SerialCase, img []byte, r *Rand) []damage {
@@ -482,6 +483,20 @@ func (h *serialHarness) damages(c *SerialCase, img []byte, r *Rand) []damage {
 		for i := 0; i < 50; i++ {
 			ds = append(ds, applyDamage(single()+"+"+single(), img))
 		}
+		// a run of bytes without record separator, longer than any buffer a line reader would use (64 KiB)
+		for i := 0; i <= nl; i++ {
+			if i == 0 || i == nl || r.Chance(0.5) {
+				ds = append(ds, applyDamage(fmt.Sprintf("junk:%d:%d", i, 65536+r.Intn(9000)), img))
+			}
+		}
+		// an escape sequence lands inside the text (delimiter / escape injection)
+		for i := 0; i < 40; i++ {
+			ds = append(ds, applyDamage(fmt.Sprintf("esc:%d:%d", r.Intn(len(img)), r.Intn(len(escSeqs))), img))
+		}
+		// the medium fails while the (intact or torn) file is being read
+		for i := 0; i < 25; i++ {
+			ds = append(ds, applyDamage(fmt.Sprintf("rfail:%d", r.Intn(len(img)+1)), img))
+		}
 		for i := 0; i < 30 && nl > 1; i++ {
 			// a lost head in front of a lost separator: the first record starts in the middle and runs into the next
 			ds = append(ds, applyDamage(fmt.Sprintf("head:%d+merge:0", 1+r.Intn(len(img)-1)), img))
@@ -490,12 +505,20 @@ func (h *serialHarness) damages(c *SerialCase, img []byte, r *Rand) []damage {
 	return ds
 }
 
+var escSeqs = []string{`\n`, `\t`, `\x00`, `\xe9`, `\u00e9`, `\"`, `\\`, `\r`, "\r", "\xe9", "\x00"}
+
 func applyDamage(spec string, img []byte) damage {
 	out := append([]byte{}, img...)
+	d := damage{name: spec, rfail: -1}
 	for _, one := range strings.Split(spec, "+") {
+		if strings.HasPrefix(one, "rfail:") {
+			d.rfail, _ = strconv.Atoi(one[6:])
+			continue
+		}
 		out = applyOne(one, out)
 	}
-	return damage{spec, out}
+	d.img = out
+	return d
 }
 
 func applyOne(spec string, img []byte) []byte {
@@ -529,6 +552,19 @@ func applyOne(spec string, img []byte) []byte {
 		x, y, z := a(1), a(2), a(3)
 		if 0 <= x && x < y && y < z && z <= len(out) {
 			out = append(append(append(append([]byte{}, img[:x]...), img[y:z]...), img[x:y]...), img[z:]...)
+		}
+	case "junk":
+		ls := splitLines(img)
+		run := bytes.Repeat([]byte{'x'}, a(2))
+		i := a(1)
+		if i > len(ls) {
+			i = len(ls)
+		}
+		ls = append(append(append([][]byte{}, ls[:i]...), run), ls[i:]...)
+		out = joinLinesB(ls)
+	case "esc":
+		if k := a(1); k <= len(out) && a(2) < len(escSeqs) {
+			out = append(append(append([]byte{}, img[:k]...), escSeqs[a(2)]...), img[k:]...)
 		}
 	case "merge":
 		ls := splitLines(img)
@@ -608,10 +644,43 @@ func (h *serialHarness) judgeImage(ctx context.Context, c *SerialCase, d damage,
 		}
 	}()
 	// 1. the reader
-	rd := &simReader{data: d.img, r: r, maxStep: c.MaxStep, eofWith: c.EOFWith, zeros: c.Zeros, failAt: -1}
+	rd := &simReader{data: d.img, r: r, maxStep: c.MaxStep, eofWith: c.EOFWith, zeros: c.Zeros, failAt: d.rfail}
 	dst := graphOf(ctx, nil)
 	n, rerr := bwio.ReadIntoGraph(ctx, dst, rd, literal.DefaultBuilder())
 	got := listing(ctx, dst)
+	if rd.fired {
+		// The medium failed at byte d.rfail. Nothing is demanded about how much of the delivered part was loaded, but: the
+		// call fails, the reported count is the number of lines loaded, and what was loaded is exactly the triples of the
+		// first n lines, all of which were delivered completely before the failure.
+		if rerr == nil {
+			return mk("read-error-swallowed", "the reader failed at byte %d of %d but ReadIntoGraph reported success (%d triples)", d.rfail, len(d.img), n)
+		}
+		var pref []string
+		complete := 0
+		for _, ln := range splitLines(d.img[:d.rfail]) {
+			// (a last line whose separator was not delivered any more counts when its content parses: a line reader
+			// hands out what it has buffered when the source fails)
+			if strings.TrimSpace(string(ln)) == "" {
+				continue
+			}
+			tr, err := triple.Parse(string(ln), literal.DefaultBuilder())
+			if err != nil || tr == nil {
+				break
+			}
+			complete++
+			if complete <= n {
+				pref = append(pref, tripleKey(tr))
+			}
+		}
+		if n > complete {
+			return mk("reader-count-after-read-error", "ReadIntoGraph reports %d triples but only %d well formed lines were delivered before the reader failed at byte %d\nimage:\n%q", n, complete, d.rfail, d.img)
+		}
+		if !equalStrings(got, distinct(pref)) {
+			extra, missing := multisetDiff(got, distinct(pref))
+			return mk("reader-set-after-read-error", "ReadIntoGraph reports %d triples but the graph does not hold exactly the triples of the first %d lines: extra=%q missing=%q\nimage:\n%q", n, n, extra, missing, d.img)
+		}
+		return nil
+	}
 	// expected: the triples of the lines before the first line the reference recogniser rejects
 	var wantKeys []string
 	lines := strings.Split(string(d.img), "\n")
